@@ -449,7 +449,25 @@ func runCheck(o *CheckOpts) int {
 
 	// slowest obligations (stability watch)
 	{
-		sorted := append([]*oblResult{}, ores...)
+		// real obligations only: covers and probes are single short attempts whose timeouts say nothing
+		var sorted []*oblResult
+		escalatedForEvidence = nil
+		for _, or := range ores {
+			if or.O.Cover || or.O.Probe {
+				continue
+			}
+			sorted = append(sorted, or)
+			// discharged, but not by the first full attempt: a stability risk worth knowing about
+			if or.R.Status == "unsat" {
+				for _, tr := range or.R.Tried {
+					if strings.HasPrefix(tr, "sliced(") || strings.Contains(tr, ":timeout:") {
+						escalatedForEvidence = append(escalatedForEvidence, map[string]interface{}{"obligation": or.O.Name, "attempts": or.R.Tried})
+						fmt.Printf("escalated: %s [%s]\n", or.O.Name, strings.Join(or.R.Tried, " "))
+						break
+					}
+				}
+			}
+		}
 		sort.Slice(sorted, func(i, j int) bool { return sorted[i].R.Seconds > sorted[j].R.Seconds })
 		for i := 0; i < len(sorted) && i < 3; i++ {
 			if sorted[i].R.Seconds > 2 {
@@ -534,6 +552,7 @@ func truncate(s string, n int) string {
 
 // the five slowest obligations of the run (stability watch), for the evidence file
 var slowestForEvidence []map[string]interface{}
+var escalatedForEvidence []map[string]interface{}
 
 // number of must-fail probes (goal false at every return) run; a provable one is a violation
 var probesForEvidence int
@@ -571,6 +590,7 @@ func writeEvidence(o *CheckOpts, pc *PropConfig, funcs []string, total, discharg
 		"solver_seconds":           round3(solverSeconds),
 		"samples":                  samples,
 		"slowest_obligations":      slowestForEvidence,
+		"escalated_obligations":    escalatedForEvidence,
 		"vacuity_probes":           probesForEvidence,
 		"vacuity_covers":           covers,
 		"vacuity_cover_failures":   coverFail,
